@@ -85,6 +85,7 @@ def stamp_rule(run, stats, bad):
             return a < b
         return a < b - 1e-9 * max(1.0, abs(a), abs(b))
 
+    sched_of = run.net.sched_of
     aseq = {}                  # uid -> kernel step of its arrival
     prev_dep = -1              # kernel step of the latest departure
     for sq, k, e in events:
@@ -138,7 +139,10 @@ def stamp_rule(run, stats, bad):
             # idle period), so everything that had arrived up to and including that step was certainly in the queue.
             # A packet that arrived in a later step of the instant is counted, not judged (it is judged at the next decision).
             oldest = min(aseq[v] for v in worlds[0].stamp) if worlds[0].stamp else -1
-            certain = {v for v in worlds[0].stamp if aseq[v] <= max(prev_dep, oldest)}
+            E = max(prev_dep, oldest)
+            # (also certain: arrivals whose delivering event was scheduled before that step -- within one instant
+            # events take effect in trigger order, and the scheduler's own resumption is triggered later)
+            certain = {v for v in worlds[0].stamp if aseq[v] <= E or sched_of.get(v, aseq[v]) < E}
             if len(certain) < len(worlds[0].stamp) - (0 if u in certain else 1):
                 stats["arrived_between_pick_and_start"] += 1
             for w in worlds:
